@@ -78,3 +78,50 @@ func debugWorkers(p *Program, spec string) {
 		}
 	}
 }
+
+// debugMeta prints a compact summary of the abstract interpretation of a
+// parser taking a single reader parameter.
+func debugMeta(p *Program, spec string, forks int) {
+	i := strings.LastIndex(spec, ":")
+	fn := p.Func(spec[:i], spec[i+1:])
+	if fn == nil {
+		fmt.Println("not found")
+		return
+	}
+	e := NewEngine(p)
+	e.EvalInits = true
+	e.MaxForks = forks
+	e.SeqCalls = func(n string) bool { return strings.Contains(n, "ReadSegment") }
+	st := newState()
+	s := &Stream{Name: "in"}
+	st.pos[s] = formInt(0)
+	outs := e.Run(fn, []Val{&ReaderVal{S: s}}, st)
+	kinds := map[string]int{}
+	for _, o := range outs {
+		kinds[o.Kind]++
+		tp, _ := o.Ret.(Tuple)
+		okRet := false
+		if len(tp) == 2 {
+			if ev, ok := tp[1].(*ErrVal); ok && ev.IsNil {
+				okRet = true
+			}
+		}
+		if o.Kind == "stuck" {
+			fmt.Println("STUCK", o.Why, p.Pos(o.Pos))
+		}
+		if !okRet {
+			continue
+		}
+		fmt.Printf("--- success at %s pos=%s conds=%d\n", p.Pos(o.Pos), o.St.pos[s].Key(), len(o.St.conds))
+		for _, c := range o.St.conds {
+			fmt.Println("    if", trunc(c.Key(), 220))
+		}
+		if ptr, ok := tp[0].(*Ptr); ok && ptr.Cell != nil {
+			fmt.Println("    md =", trunc(valKey(o.St.mem[ptr.Cell]), 900))
+		}
+		for _, ev := range o.St.events {
+			fmt.Printf("    ev %s %s recv=%s args=%s\n", ev.Kind, ev.Fn, trunc(valKey(ev.Recv), 60), trunc(valKey(Tuple(ev.Args)), 200))
+		}
+	}
+	fmt.Println(kinds, "steps", e.steps)
+}
